@@ -419,10 +419,27 @@ def no_match_possible(ctx, w: World, name, detail):
     ctx.prove(name, z3.Not(z3.And(z3.IsMember(x, w.LIVE), w.allmatch(x))), detail)
 
 
-def install_query_contracts(it, ctx: Ctx, w: World, tm: TermMap, focus=None):
+def install_query_contracts(it, ctx: Ctx, w: World, tm: TermMap, focus=None, phrases=None, locked_pred=None, prop='C07'):
     """loop / comprehension contracts of SharesManager.query.  `focus` selects which contract is CHECKED on an arbitrary iteration
     (the path ends there); all others are applied as summaries."""
     state = {}
+    EXCLUDED = z3.Function('has_excluded_phrase', I, B)
+
+    def excluded(x):
+        return EXCLUDED(x) if phrases is not None else z3.BoolVal(False)
+
+    def wanted(x):
+        return z3.And(w.allmatch(x), z3.Not(excluded(x)))
+    state['excluded'], state['wanted'] = excluded, wanted
+    if phrases is not None:
+        # definition of EXCLUDED (Skolem function PHW): some phrase of the list occurs in the lower-cased query path, compared lower-cased
+        ph_, x_e = z3.Const('ph!e', S), z3.Const('x!e', I)
+        PHW = z3.Function('excluding_phrase', I, S)
+        occurs = lambda ph, x: z3.Contains(LOWER(w.QP(x)), LOWER(ph))        # noqa
+        state['occurs'] = occurs
+        ctx.lemma(z3.ForAll([x_e], z3.Implies(EXCLUDED(x_e), z3.And(z3.IsMember(PHW(x_e), phrases.term), occurs(PHW(x_e), x_e))), patterns=[EXCLUDED(x_e)]))
+        ctx.lemma(z3.ForAll([x_e, ph_], z3.Implies(z3.And(z3.IsMember(ph_, phrases.term), occurs(ph_, x_e)), EXCLUDED(x_e)),
+                            patterns=[z3.MultiPattern(z3.IsMember(ph_, phrases.term), EXCLUDED(x_e))]))
 
     # -- loop 0/1: include terms and their pieces ---------------------------------------------------
     def loop_include(it2, node, env):
@@ -701,7 +718,7 @@ def install_query_contracts(it, ctx: Ctx, w: World, tm: TermMap, focus=None):
         if not isinstance(F, SymSet) or not (isinstance(keep, (set, SymSet))):
             raise Unsupported('filter loop: state')
         state['F'] = F.term
-        if focus in ('filter', 'comp-all'):
+        if focus in ('filter', 'comp-all', 'excluded'):
             x = ctx.fresh_int('x')
             ctx.assume(z3.IsMember(x, F.term))
             T0 = z3.Const('T0', z3.SetSort(I))
@@ -719,10 +736,10 @@ def install_query_contracts(it, ctx: Ctx, w: World, tm: TermMap, focus=None):
                 broke = True
             if focus != 'filter':
                 raise PathAbort()
-            ok = w.allmatch(x)
-            ctx.prove('C07.query.filter.keeps-iff-matches', z3.If(ok, z3.And(ks.term == z3.SetAdd(T0, x), ks.k == K0 + 1), z3.And(ks.term == T0, ks.k == K0)),
+            ok = wanted(x)
+            ctx.prove(f'{prop}.query.filter.keeps-iff-matches', z3.If(ok, z3.And(ks.term == z3.SetAdd(T0, x), ks.k == K0 + 1), z3.And(ks.term == T0, ks.k == K0)),
                       'an item of the prefilter must be kept iff all matchers accept its query path')
-            ctx.prove('C07.query.filter.cap', z3.BoolVal(broke) == (ks.k >= w.MAX), 'the loop must stop exactly when max_results items are kept', use_lemmas=False)
+            ctx.prove(f'{prop}.query.filter.cap', z3.BoolVal(broke) == (ks.k >= w.MAX), 'the loop must stop exactly when max_results items are kept', use_lemmas=False)
             raise PathAbort()
         T = z3.Const('T', z3.SetSort(I))
         K = ctx.fresh_int('K')
@@ -731,12 +748,67 @@ def install_query_contracts(it, ctx: Ctx, w: World, tm: TermMap, focus=None):
         ctx.assume(FS == F.term)
         x_ = z3.Const('x!f', I)
         mem = z3.IsMember
-        ctx.lemma(z3.ForAll([x_], z3.Implies(mem(x_, T), z3.And(mem(x_, FS), w.allmatch(x_))), patterns=[mem(x_, T)]))
-        ctx.lemma(z3.Implies(z3.Not(BR), z3.ForAll([x_], z3.Implies(z3.And(mem(x_, FS), w.allmatch(x_)), mem(x_, T)), patterns=[mem(x_, T), mem(x_, FS)])))
+        ctx.lemma(z3.ForAll([x_], z3.Implies(mem(x_, T), z3.And(mem(x_, FS), wanted(x_))), patterns=[mem(x_, T)]))
+        ctx.lemma(z3.Implies(z3.Not(BR), z3.ForAll([x_], z3.Implies(z3.And(mem(x_, FS), wanted(x_)), mem(x_, T)), patterns=[mem(x_, T), mem(x_, FS)])))
         ctx.assume(z3.And(K >= 0, K <= w.MAX, z3.Implies(BR, K == w.MAX), (K == 0) == (T == z3.EmptySet(I))))
         state['BR'] = BR
         env.vars['to_keep'] = KeepSet(T, K)
     it.loop_specs[(QUERY, 4)] = loop_filter
+
+    # -- loop 5: excluded phrases (for / else) -----------------------------------------------------------
+    def loop_phrases(it2, node, env):
+        src = it2.eval(node.iter, env)
+        if src == []:
+            it2.exec_block(node.orelse, env)
+            return
+        if src is not phrases:
+            raise Unsupported('excluded phrases: iteration space')
+        x = env.lookup('found_item').pyvc_term
+        if focus == 'excluded':
+            ph = ctx.fresh_str('phrase')
+            ctx.assume(z3.IsMember(ph, phrases.term))
+            it2.assign(node.target, Sym(ph, 'str'), env)
+            broke = False
+            try:
+                it2.exec_block(node.body, env)
+            except BreakEx:
+                broke = True
+            except ContinueEx:
+                pass
+            ctx.prove(f'{prop}.query.excluded.iteration', z3.BoolVal(broke) == state['occurs'](ph, x),
+                      'an item must be dropped iff the phrase occurs in its query path, compared case-insensitively', use_lemmas=False)
+            raise PathAbort()
+        if ctx.branch(EXCLUDED(x)):
+            return              # left by break: the else clause is skipped
+        it2.exec_block(node.orelse, env)
+    it.loop_specs[(QUERY, 5)] = loop_phrases
+
+    # -- loop 6: visible / locked split ------------------------------------------------------------------
+    def loop_split(it2, node, env):
+        src = env.vars.get('found_items')
+        if not isinstance(src, KeepSet) or locked_pred is None:
+            raise Unsupported('split loop: state')
+        if env.vars.get('visible_results') != [] or env.vars.get('locked_results') != []:
+            raise Unsupported('split loop: accumulators')
+        if focus == 'split':
+            x = ctx.fresh_int('x')
+            ctx.assume(z3.IsMember(x, src.term))
+            V0, L0 = z3.Const('V0', z3.SetSort(I)), z3.Const('LK0', z3.SetSort(I))
+            vis, lck = ResultList(V0, ctx.fresh_int('nv')), ResultList(L0, ctx.fresh_int('nl'))
+            env.vars['visible_results'], env.vars['locked_results'] = vis, lck
+            it2.assign(node.target, Item(w, x), env)
+            it2.exec_block(node.body, env)
+            ctx.prove(f'{prop}.query.split.iteration', z3.If(locked_pred(x), z3.And(lck.term == z3.SetAdd(L0, x), vis.term == V0),
+                                                            z3.And(vis.term == z3.SetAdd(V0, x), lck.term == L0)),
+                      'an item that is locked for the user must go to the locked results and to nothing else', use_lemmas=False)
+            raise PathAbort()
+        VIS, LCK = z3.Const('VISIBLE', z3.SetSort(I)), z3.Const('LOCKED', z3.SetSort(I))
+        x_ = z3.Const('x!s', I)
+        mem = z3.IsMember
+        ctx.lemma(z3.ForAll([x_], mem(x_, VIS) == z3.And(mem(x_, src.term), z3.Not(locked_pred(x_))), patterns=[mem(x_, VIS), mem(x_, src.term)]))
+        ctx.lemma(z3.ForAll([x_], mem(x_, LCK) == z3.And(mem(x_, src.term), locked_pred(x_)), patterns=[mem(x_, LCK), mem(x_, src.term)]))
+        env.vars['visible_results'], env.vars['locked_results'] = ResultList(VIS, ctx.fresh_int('nv')), ResultList(LCK, ctx.fresh_int('nl'))
+    it.loop_specs[(QUERY, 6)] = loop_split
     return state
 
 
